@@ -226,4 +226,59 @@ theorem merge_sound (hq : QRefl Q) {D : List DName} (k1 k2 km : LocalKind) (ns1 
     | trivial
     | (exact absurd h1 (by decide))
 
+open Rules.GroupLocal in
+theorem padTake_nil (n : Nat) : padTake (N := N) n [] = List.replicate n .nil := by
+  induction n with
+  | zero => rfl
+  | succ n ih => simp [padTake, first, List.replicate, ih]
+
+open Rules.GroupLocal in
+/-- **the merge as a generic leaf** (second declaration WITHOUT values): nothing is evaluated between the two
+allocations, both sides allocate in the same order. `R` is what the merged statement evaluates; `hR`/`hg` say it
+gives the values of `vs1` followed by `nil`s. -/
+theorem merge_sound_empty (hq : QRefl Q) {D : List DName} (k1 k2 km : LocalKind) (ns1 ns2 : List TName)
+    (vs1 R : List Expr) (rest : List Stmt) (g : {N : NumOps} → List (Val N) → List (Val N))
+    (hR : ∀ (N : NumOps) (call : CallFn N) (ρ : ExtOracle N) (k : Nat) (env : Env N) (σ : State N),
+      evalEs call ρ k env R σ = (evalEs call ρ k env vs1 σ).bind fun ws s => .ok (g ws) s)
+    (hg : ∀ (N : NumOps) (ws : List (Val N)),
+      padTake (ns1.length + ns2.length) (g ws) = padTake ns1.length ws ++ List.replicate ns2.length .nil)
+    (hn1 : NoRefEs D vs1) (hnrest : NoRefSs D rest)
+    (hw1 : ∀ n ∈ ns1.map TName.name, DName.wat n ∉ D) (hw2 : ∀ n ∈ ns2.map TName.name, DName.wat n ∉ D) :
+    SoundSs Q cx0 D (.localAssign k1 ns1 vs1 :: .localAssign k2 ns2 [] :: rest)
+      (.localAssign km (ns1 ++ ns2) R :: rest) D := by
+  refine ⟨DSub.refl D, ?_⟩
+  intro N call ρ k env env' σ σ' β hp hs he
+  simp only [execSs, execS, hR]
+  have h1 := reflEs hq vs1 D hn1 N call ρ k env env' σ σ' β hp hs he
+  revert h1
+  generalize evalEs call ρ k env vs1 σ = rl
+  generalize evalEs call ρ k env' vs1 σ' = rr
+  intro h1
+  cases rl <;> cases rr <;> simp only [HeapU.RRel] at h1
+  · rename_i ws1 s1 ws1' s1'
+    obtain ⟨β1, hle1, hvs1, hs1⟩ := h1
+    simp only [Res.bind, evalEs]
+    have hlen1 : (ns1.map TName.name).length = ns1.length := List.length_map _
+    have hlen2 : (ns2.map TName.name).length = ns2.length := List.length_map _
+    have hright : bindLocals (List.map TName.name (ns1 ++ ns2)) (g ws1') env'.locals s1'
+        = bindLocals (ns2.map TName.name) []
+            (bindLocals (ns1.map TName.name) ws1' env'.locals s1').1
+            (bindLocals (ns1.map TName.name) ws1' env'.locals s1').2 := by
+      rw [← bindLocals_padTake (List.map TName.name (ns1 ++ ns2)) (g ws1'), List.map_append, List.length_append,
+        hlen1, hlen2, hg, bindLocals_append, hlen1, List.drop_left' (length_padTake _ _)]
+      rw [← bindLocals_padTake (ns1.map TName.name) (padTake ns1.length ws1' ++ _), hlen1,
+        padTake_append _ _ _ (length_padTake _ _), ← hlen1, bindLocals_padTake]
+      rw [← bindLocals_padTake (ns2.map TName.name) (List.replicate _ _), hlen2, padTake_replicate, ← hlen2,
+        bindLocals_padTake]
+    rw [hright]
+    obtain ⟨β2, hle2, hs2, he2⟩ := hs1.bindLocals (D := D) (ns1.map TName.name) hw1 hvs1 (he.mono hle1).loc
+    obtain ⟨β3, hle3, hs3, he3⟩ := hs2.bindLocals (D := D) (ns2.map TName.name) hw2 (vs := []) (vs' := []) .nil he2
+    have hle03 : β.le β3 := Inj.le_trans hle1 (Inj.le_trans hle2 hle3)
+    exact RRel.mono hle03 ((reflSs hq rest D hnrest).2 N call ρ k _ _ _ _ β3 hp hs3
+      ⟨VsRel.mono hle03 he.va, he3⟩)
+  all_goals first
+    | (obtain ⟨β1, hle1, hv, hs1⟩ := h1; exact ⟨β1, hle1, hv, hs1⟩)
+    | trivial
+    | (exact absurd h1 (by decide))
+
 end DarkluaModel.C16.GroupU
